@@ -186,9 +186,9 @@ Proof. apply mx_w_eqb_eq. Qed.
 
 (* weights *)
 Definition mx_wH (th : mx_thread) : nat := if xh th then 1 else 0.
-Definition mx_wW (th : mx_thread) : nat := match xpc th with XLWoke _ _ => 1 | _ => 0 end.
+Definition mx_wW (th : mx_thread) : nat := match xpc th with XLWoke _ _ _ => 1 | _ => 0 end.
 Definition mx_wS (th : mx_thread) : nat :=
-  match xpc th with XLLoad _ _ true _ => 1 | XLCas _ true _ _ => 1 | _ => 0 end.
+  match xpc th with XLLoad _ _ true _ => 1 | XLCas _ _ true _ _ => 1 | _ => 0 end.
 Definition mx_wP (th : mx_thread) : nat := match xpc th with XURel false => 1 | _ => 0 end.
 Definition mx_wD (th : mx_thread) : nat := match xpc th with XLHand _ => 1 | XURel true => 1 | _ => 0 end.
 
@@ -215,8 +215,8 @@ Proof. rewrite mx_sum_app. unfold mx_sum. simpl. lia. Qed.
 Definition mx_lok (th : mx_thread) : Prop :=
   match xpc th with
   | XLLoad _ _ awoke stv => stv = true -> awoke = true
-  | XLCas _ awoke stv _ => stv = true -> awoke = true
-  | XLSpin _ old => xk old = false /\ xs old = false
+  | XLCas _ _ awoke stv _ => stv = true -> awoke = true
+  | XLSpin _ _ old => xk old = false /\ xs old = false
   | XT3 old => xl old = false /\ xk old = false /\ xs old = false
   | XU1 => xh th = true
   | _ => True
